@@ -165,3 +165,115 @@ func c16SketchObs(q *ddsketch.DDSketch) string {
 	}
 	return sb.String()
 }
+
+// C14 with weights that are not dyadic: a copy answers every query like its
+// original, to the last bit (running totals and compensated sums round, so a copy
+// that recomputes instead of copying them shows only here), and stays so after
+// the original goes on.
+func c14NonDyadicCopyShards(tier string) []mc.Shard {
+	kinds := []Kind{{K: 'D'}, {K: 'S'}, {K: 'P'}, {K: 'L', N: 3}, {K: 'H', N: 3}}
+	depth := 3
+	if tier == "thorough" {
+		depth = 4
+	}
+	var shards []mc.Shard
+	for _, k := range kinds {
+		k := k
+		name := fmt.Sprintf("C14/copies-of-rounded-totals/%s", k)
+		run := func(deadline time.Time) *mc.Result {
+			start := time.Now()
+			res := &mc.Result{Scenario: name, Property: "C14", Exhaustive: true}
+			if k.K == 'S' && !mc.MapOrderControlled {
+				// the sparse store sums its total in map order, which then differs from one
+				// call to the next: last bits are not comparable
+				res.WallS = time.Since(start).Seconds()
+				return res
+			}
+			alpha := c16TwinAlphabet()
+			distinct := map[string]struct{}{}
+			fail := func(hist, detail string) {
+				if len(res.Violations) < 4 {
+					res.Violations = append(res.Violations, mc.Violation{Property: "C14", Clause: "C14.copy-equals-original", Scenario: name, Seed: "additions", History: []string{hist}, Detail: hist + ": " + detail})
+				}
+			}
+			seq := make([]int, 0, depth)
+			var rec func()
+			rec = func() {
+				if len(seq) > 0 {
+					if time.Now().After(deadline) {
+						res.Exhaustive = false
+						return
+					}
+					var hs []string
+					for _, j := range seq {
+						hs = append(hs, fmt.Sprintf("AddWithCount(%d, %v)", alpha[j].idx, alpha[j].w))
+					}
+					hist := strings.Join(hs, "; ")
+					res.Evaluations++
+					mc.Progress(func() string { return fmt.Sprintf("%s store: %s; Copy", k, hist) })
+					a := k.New()
+					var total float64
+					for _, j := range seq {
+						a.AddWithCount(alpha[j].idx, alpha[j].w)
+						total += alpha[j].w
+					}
+					ranks := []float64{0, total / 3, total / 2, total}
+					c := a.Copy()
+					oa, oc := ObserveStore(a, ranks), ObserveStore(c, ranks)
+					if oa != oc {
+						fail(hist, fmt.Sprintf("the copy of a %s store differs from its original\n  original: %s\n  copy:     %s", k, oa, oc))
+					}
+					a.AddWithCount(1, 0.7)
+					if oc2 := ObserveStore(c, ranks); oc2 != oc {
+						fail(hist, fmt.Sprintf("the copy of a %s store changed when the original received AddWithCount(1, 0.7)\n  before: %s\n  after:  %s", k, oc, oc2))
+					}
+					distinct[oa] = struct{}{}
+					for _, exact := range []bool{false, true} {
+						sl := NewSkSlot(MapSpec{Kind: 'G', Alpha: 0.1}.New(), k, exact)
+						m := sl.Mapping()
+						for n, j := range seq {
+							v := m.Value(alpha[j].idx)
+							if n%2 == 1 {
+								v = -v
+							}
+							must(sl.Q().AddWithCount(v, alpha[j].w), "add")
+						}
+						must(sl.Q().AddWithCount(0, 0.3), "add zero")
+						cp := sl.CopyOf()
+						sa, sc := ObserveSketch(sl.Q()), ObserveSketch(cp.Q())
+						if sa != sc {
+							fail(hist, fmt.Sprintf("the copy of a sketch on %s stores (exact=%v; odd additions negated, zero weight 0.3) differs from its original\n  original: %s\n  copy:     %s", k, exact, sa, sc))
+						}
+						must(sl.Q().AddWithCount(m.Value(1), 0.7), "add")
+						if sc2 := ObserveSketch(cp.Q()); sc2 != sc {
+							fail(hist, fmt.Sprintf("the copy of a sketch on %s stores (exact=%v) changed when the original received an addition\n  before: %s\n  after:  %s", k, exact, sc, sc2))
+						}
+					}
+				}
+				if len(seq) == depth {
+					return
+				}
+				for j := range alpha {
+					seq = append(seq, j)
+					rec()
+					seq = seq[:len(seq)-1]
+				}
+			}
+			rec()
+			res.Distinct = int64(len(distinct))
+			res.Samples = []string{fmt.Sprintf("%s: all sequences of <= %d additions over %d (index, weight) pairs, copied as a store and inside both sketch variants", name, depth, len(alpha))}
+			mc.FlushSide(res)
+			res.WallS = time.Since(start).Seconds()
+			return res
+		}
+		shards = append(shards, mc.Shard{Name: name, Weight: 50, Run: run, Replay: func(string, []string) ([]mc.Fail, error) {
+			r := run(time.Now().Add(20 * time.Minute))
+			var fails []mc.Fail
+			for _, v := range r.Violations {
+				fails = append(fails, mc.Fail{Clause: v.Clause, Detail: v.Detail})
+			}
+			return fails, nil
+		}})
+	}
+	return shards
+}
